@@ -1532,7 +1532,7 @@ func TestVerifC02BytePipe(t *testing.T) {
 	vk.Quiet()
 	run := vk.Start(t, "C02", "bytepipe")
 	defer run.Finish()
-	run.Rule("a real tunnel.Bridge between two harness clients; per case: transports per end {net.Pipe, unbounded in-memory pipe, loopback TCP}, raw conn or real StreamProcessor, bandwidth limit {0, 500..16383 (burst < 32KiB copy buffer), 64KiB/s, 1MiB/s, 1GiB/s}, 0..1.5MiB (thorough 8MiB) per direction simultaneously (sizes of limited cases chosen so a correct transfer needs <= 1.5s), seeded write chunkings (1B..256KiB / whole), server-side short reads, client read buffers 1B..64KiB, target attached before/after Start/after the source started writing, scripts {none, injected read timeouts (bare or together with data), an end finishing after a complete exchange with its last bytes delivered together with io.EOF, source re-attach on a new connection at a seeded hand-over offset with the old connection left open, client close at a seeded offset, server-side read/write failure at a seeded offset (bare or with data), Bridge.Close at a seeded offset}; distinct = (transports, stream, limit class, attach, script, size buckets) of cases that delivered at least one byte")
+	run.Rule("a real tunnel.Bridge between two harness clients; per case: transports per end {net.Pipe, unbounded in-memory pipe, loopback TCP}, raw conn or real StreamProcessor, bandwidth limit {0, 500..16383 (burst < 32KiB copy buffer), 64KiB/s, 1MiB/s, 1GiB/s}, 0..1.5MiB (thorough 8MiB) per direction simultaneously (sizes of limited cases chosen so a correct transfer needs <= 1.5s, plus a few slow-but-legal cases: 500..4000 B/s with one write of 6-10x the limit, 4-8 s), seeded write chunkings (1B..256KiB / whole), server-side short reads, client read buffers 1B..64KiB, target attached before/after Start/after the source started writing, scripts {none, injected read timeouts (bare or together with data), an end finishing after a complete exchange with its last bytes delivered together with io.EOF, source re-attach on a new connection at a seeded hand-over offset with the old connection left open, client close at a seeded offset, server-side read/write failure at a seeded offset (bare or with data), Bridge.Close at a seeded offset}; distinct = (transports, stream, limit class, attach, script, size buckets) of cases that delivered at least one byte")
 
 	ln, err := net.Listen("tcp", "127.0.0.1:0")
 	if err != nil {
@@ -1566,6 +1566,51 @@ func TestVerifC02BytePipe(t *testing.T) {
 	var wg sync.WaitGroup
 	var next atomic.Int64
 	var undecided atomic.Int64
+
+	// "slow but legal" family: a low limit and one write of 6-10x the limit, so a single
+	// read of the copy loop owes the token bucket 4-8 s. Nobody closes: everything must
+	// still arrive (the waiting itself is not judged). These cases mostly sleep in the
+	// limiter and run on their own goroutines next to the worker pool.
+	sr := run.Rand("slow")
+	nSlow, slowLanes := run.Pick(6, 24), 6
+	slow := make([]c02Cfg, nSlow)
+	for i := range slow {
+		l := []int64{500, 1000, 2000, 4000}[i%4]
+		big := int(l) * (6 + sr.Intn(5))
+		if big > 32000 {
+			big = 32000
+		}
+		c := c02Cfg{ID: 100000 + i, SrcT: []string{"pipe", "pipe", "buf", "tcp"}[sr.Intn(4)], TgtT: []string{"pipe", "buf", "tcp"}[sr.Intn(3)],
+			Stream: sr.Intn(2) == 0, Limit: l, ChunkS: "whole", ChunkT: "whole", RBufS: 65536, RBufT: 65536, Attach: "before", Script: "none",
+			End: "src", On: "rd", Closer: []string{"src", "tgt"}[sr.Intn(2)], Seed: sr.Uint64(), ChunkSeed: sr.Int63()}
+		small := []int{0, 1, 100}[sr.Intn(3)]
+		if i%2 == 0 {
+			c.S2T, c.T2S = big, small
+		} else {
+			c.S2T, c.T2S = small, big
+		}
+		slow[i] = c
+	}
+	run.Sample(slow[0])
+	for lane := 0; lane < slowLanes; lane++ {
+		wg.Add(1)
+		go func(lane int) {
+			defer wg.Done()
+			for i := lane; i < len(slow); i += slowLanes {
+				if run.Violations() >= 12 {
+					return
+				}
+				run.Case("bytepipe", slow[i])
+				o := c02RunCase(run, nw, slow[i])
+				if o.watchdog {
+					undecided.Add(1)
+				}
+				if o.complete {
+					run.Count("slow_legal_complete", 1)
+				}
+			}
+		}(lane)
+	}
 	for w := 0; w < workers; w++ {
 		wg.Add(1)
 		go func() {
@@ -1625,6 +1670,7 @@ func TestVerifC02BytePipe(t *testing.T) {
 	run.Floor("reads_returning_data_and_error", 20)
 	run.Floor("fin_with_data_fired", 5)
 	run.Floor("reattach_suffix_exact", 5)
+	run.Floor("slow_legal_complete", int64(run.Pick(4, 16)))
 }
 
 // TestVerifC02EarlyEnd drives the interleaving "one direction ends before the other copy
